@@ -4,16 +4,18 @@
 # worktree, and records the violations reported.
 # usage: tools_seed_matrix.sh [seed-id-prefix ...]      Output: out/seed_matrix.txt (one line per seed and property).
 cd /verif
-WT=/tmp/verif_seedwt
-OUT=/tmp/verif_seedout
-out=out/seed_matrix.txt
+# MATRIX_ID=<tag> runs an independent instance (own scratch worktree and output file out/seed_matrix.<tag>.txt), so that
+# two halves of the seed set can be run side by side.
+WT=/tmp/verif_seedwt${MATRIX_ID:+.$MATRIX_ID}
+OUT=/tmp/verif_seedout${MATRIX_ID:+.$MATRIX_ID}
+out=out/seed_matrix${MATRIX_ID:+.$MATRIX_ID}.txt
 mkdir -p out
 git -C /repo worktree remove --force $WT 2>/dev/null
 rm -rf $WT $OUT
 git -C /repo worktree add -q --detach $WT HEAD || exit 9
 sync_mirror() { (cd /verif/contracts && find . -name zz_verif_contracts.go | while read f; do mkdir -p "$WT/$(dirname "$f")"; cp "$f" "$WT/$f"; done); }
 sel="$*"
-[ -z "$sel" ] && : > $out
+{ [ -z "$sel" ] || [ -n "${MATRIX_ID:-}" ]; } && : > $out
 for d in seeded/*/; do
   id=$(basename $d)
   if [ -n "$sel" ]; then ok=0; for s in $sel; do case $id in $s*) ok=1;; esac; done; [ $ok = 1 ] || continue; fi
